@@ -27,6 +27,7 @@ func c15(c *Ctx) {
 	r.Decides("for a non-root parent the ancestor walk cannot be skipped; only quotas labelled is-root=true are exempt from the children-min-sum check")
 	r.Declines("min-sum arithmetic, key-set agreement of dimensions along the tree, namespace uniqueness as a counting property")
 	c15items(c)
+	c15sums(c)
 
 	entries := map[string]*ssa.Function{}
 	for _, n := range []string{"ValidAddQuota", "ValidUpdateQuota", "ValidDeleteQuota"} {
